@@ -985,10 +985,17 @@ class Interp:
                 return args[0]
             if f.value[0] == "sympy" and f.value[1] == "Matrix":
                 a0 = args[0] if args else None
+                a0 = unwrap_elem(a0)
                 if isinstance(a0, SeqV):
                     # a vector of state-update expressions is the *next* state: prime its axis
                     nxt = isinstance(a0.elem, tuple) and a0.elem[:2] == ("model", "state_model")
                     return SymMatV(a0.layout.prime() if nxt else a0.layout, ONE)
+                if isinstance(a0, tuple) and a0 and a0[0] in ("VALUES", "KEYS", "ITEMS") and isinstance(unwrap_elem(a0[1]), MapV):
+                    return SymMatV(Layout((("UNORD", unwrap_elem(a0[1]).keyrole),)), ONE)     # dict order of the user's mapping
+                if isinstance(a0, UnordSeqV):
+                    return SymMatV(Layout((("UNORD", a0.role),)), ONE)
+                if isinstance(a0, tuple) and a0 and a0[0] == "UNORDLIST" and isinstance(a0[1], MapV):
+                    return SymMatV(Layout((("UNORD", a0[1].keyrole),)), ONE)
                 return Unknown("Matrix()")
         if isinstance(f, Const) and f.value in (list, set, tuple, dict, str, float, int, bool):
             return self.call_builtin(f.value.__name__, args, kwargs, env, n)
